@@ -37,6 +37,7 @@ META = {
     ],
 }
 META["claim"] += " " + 'Also: long strings with an open multi-byte sequence ending at or next to k x 2^n, a run of whole ASCII blocks, then the continuation (validators with block-wise fast paths are not small DFAs); close reasons under codes 1000/1011/3000/4999.'
+META["claim"] += " " + 'Round 3b: about half of the receive cases with trace logging on; after a rejected message the same connection receives further valid and invalid messages, each judged on its own.'
 
 
 def classify(data: bytes) -> str:
